@@ -60,6 +60,7 @@ def script_property(run, gen, relevant, variants_quick=("sse2-debug",), variants
                     d[k] = d.get(k, 0) + val
             if blocks and not samples:
                 samples = [blocks[0][:600]]
+    all_findings += getattr(run, "extra_findings", [])
     prop_f = [f for f in all_findings if relevant(f)]
     tie_f = [f for f in all_findings if f.kind in ("C-MISMATCH", "T-MISMATCH", "D-ERROR") and not relevant(f)]
 
@@ -603,7 +604,7 @@ def gen_layout_scripts(tier, seed, variant):
     for i in range(n):
         r = i % 4
         if r == 0:
-            out.append(gen_map.make_script(rng, f"y{seed}_{i}"))
+            out.append(gen_map.make_script(rng, f"y{seed}_{i}", forget=(i % 8 == 0), kind="map-drop" if i % 8 == 0 else None))
         elif r == 1:
             out.append(gen_map.make_script(rng, f"y{seed}_{i}", calldep=rng.choice(["hash", "both"])))
         else:
@@ -619,7 +620,7 @@ def check_c02(run):
     return script_property(
         run, gen_layout_scripts,
         relevant=lambda f: f.kind == "CRASH" or (f.kind == "B-FAIL" and "SafeWF" in f.text) or (f.kind in ("H-FAIL", "A-FAIL") and any(k in f.text for k in MEMORY)),
-        rule="safe-API histories over HashMap (two element flavours) and HashTable with element sizes 0, 1, 2, 24, 32, 200 and alignment up to 64 (> group width), lawful and call-dependent hashers, all hash-plan classes; the harness allocator puts red zones around every block and poisons fresh / freed memory, checks the layout of every request and release, the alignment of the control bytes and of every element slot and that every slot lies inside the block; every dumped state must satisfy SafeWF (counters = number of FULL bytes, mirror bytes, at least one EMPTY byte ...) via the extracted wf_check; debug assertions of the library are enabled (debug profile) and count as findings",
+        rule="safe-API histories over HashMap (two element flavours) and HashTable with element sizes 0, 1, 2, 24, 32, 200 and alignment up to 64 (> group width), lawful and call-dependent hashers, all hash-plan classes; the harness allocator puts red zones around every block and poisons fresh / freed memory, checks the layout of every request and release, the alignment of the control bytes and of every element slot and that every slot lies inside the block; iterators, drains, extract_if and entries are leaked with mem::forget part-way (the collection must stay valid: empty singleton after a leaked drain / into_iter, unchanged after a leaked entry); every dumped state must satisfy SafeWF (counters = number of FULL bytes, mirror bytes, at least one EMPTY byte ...) via the extracted wf_check; debug assertions of the library are enabled (debug profile) and count as findings",
         partial_note="Coq cannot exhibit undefined behaviour of compiled Rust (aliasing/provenance, validity of reads, the intrinsics); what is proved is the index / initialisation / ownership discipline: the model's checked primitives never fire (map_step_safe) and SafeWF is preserved for every operation and every hasher")
 
 def check_c03(run):
@@ -752,8 +753,37 @@ def check_c14(run):
         rule="HashMap histories in which a third of the steps is followed by an entry-style operation on a present or absent key: entry(k).or_insert / insert / and_modify().or_insert / remove_entry / dropped unused, try_insert; plus HashSet histories with get_or_insert, get_or_insert_with, replace, entry(v).insert and `^=`; the states include growth_left = 0 (capacity() = len()), tombstone-laden tables and the unallocated singleton (counted in hard_branch_counts); every step is compared bit for bit with the extracted model and judged by the reference map, whose entry semantics are the get / insert / remove expansions. raw_entry_mut and rustc_entry are not exercised by the harness (listed as not modelled in DESIGN.md)",
         nontrivial_keys=("pre_growth_left_0", "tombstones_present", "small_table"))
 
+def gen_many_scripts(tier, seed, variant):
+    rng = random.Random(seed)
+    n = 36 if tier == "quick" else 120
+    out = []
+    for i in range(n):
+        if i % 2:
+            out.append(gen_table.make_script(rng, f"q{seed}_{i}"))
+        else:
+            out.append(gen_map.make_script(rng, f"q{seed}_{i}", many=True))
+    return "".join(out)
+
+def check_c15(run):
+    # the zero-sized-element probe (a dedicated program: the scripted elements cannot express
+    # distinct entries of a ZST table)
+    extra = []
+    ok, exe = H.build_harness("sse2-debug")
+    if ok:
+        rc, out = H.sh([exe, "zst"], timeout=60)
+        for l in out.split("\n"):
+            if l.startswith("ZST") and "panicked" in l:
+                extra.append(H.Finding("A-FAIL", l.strip(), None, None))
+    run.extra_findings = extra
+    return script_property(
+        run, gen_many_scripts,
+        relevant=lambda f: f.kind == "CRASH" or (f.kind in ("A-FAIL", "H-FAIL", "B-FAIL") and (op_in(f, ("getmanymut", "tgetmanymut")) or "two mutable references" in f.text or f.text.startswith("ZST"))),
+        rule="HashMap histories with get_many_key_value_mut / get_many_mut on N = 0..4 keys (present, absent, repeated, colliding in position and tag bits under the 8 hash-plan classes) and HashTable histories with get_many_mut whose closures are key equalities or value-class predicates matching several entries; the harness compares the addresses of the returned &mut (two equal addresses = finding) and writes through them; results (request order, Some/None, which entry), the written values and the duplicate panic are compared with the extracted model (HashMap::get_many_mut = RawTable::get_many_mut with key closures = Table.table_step TGetManyMut) and judged by the reference multiset; plus a dedicated probe of a table of zero-sized elements",
+        nontrivial_keys=("get_many_mut_2", "get_many_mut_3", "get_many_mut_4", "get_many_mut_2plus"))
+
 PROPS = {
     "C17": check_c17,
+    "C15": check_c15,
     "C01": check_c01, "C14": check_c14,
     "C08": check_c08, "C12": check_c12, "C13": check_c13,
     "C02": check_c02, "C03": check_c03, "C04": check_c04, "C05": check_c05, "C06": check_c06, "C10": check_c10, "C11": check_c11,
